@@ -568,7 +568,7 @@ func Run(c *core.Ctx) core.FinishOpts {
 				return
 			}
 			res, v := r.run(k)
-			if i < 3 && v.status == "ok" {
+			if (i < 3 || i%997 == 0) && v.status == "ok" {
 				c.Sample(map[string]interface{}{"id": k.id, "call": k.describe(), "result": res.String()})
 			}
 		})
